@@ -855,4 +855,12 @@ func runUpDown(c *ctx) {
 		}
 		c.engineCase(a, b, d, o)
 	}
+	// DROP TABLE under foreign_keys = on over small foreign-key graphs (dropgrid.go)
+	nd := 500
+	if c.thorough {
+		nd = 20000
+	}
+	for i, fc := range c.dropFamily(nd) {
+		c.engineCase(fc.a, fc.b, fc.desc, engineOpts{updown: true, file: i%7 == 0, fk: i%5 != 4, withModel: true})
+	}
 }
